@@ -120,6 +120,19 @@ CLAIMED["C13"] = dict(
          "(5 table shapes), same-named and distinctly named handlers. Outside: unregistered pairs, requests lacking "
          "Session-Id/Origin-Host/Origin-Realm.")
 
+CLAIMED["C19"] = dict(
+    level="model_checking", technique=E1, design="6/C19",
+    text="The real _convert_config_to_connection_obj / Diameter(config=) / _convert_file_to_config are executed on complete "
+         "configurations in which one key (group) is symbolic per query - MODE and TRANSPORT_TYPE as arbitrary short strings, "
+         "IPv4 addresses as digit templates with every digit symbolic and as a valid stem with an arbitrary inserted character, "
+         "the timeout as any int or a non-int kind, names/ports/application byte values verbatim - under several key insertion "
+         "orders; the verdict 'Connection equal to the input, or InvalidConfigKey/InvalidConfigValue' is compared with an "
+         "independent validator. YAML half: yaml.load/open stubbed to a symbolic spec list (mode/transport case variants, "
+         "per-entry TCP default, constants by name).",
+    note="Trusted: CrossHair, z3, stdlib ipaddress (P6 opaque messages), the independent validator. Bounds: strings <= 6/4 "
+         "chars, 6 key orders (quick) / 25, spec lists of <= 3 (quick) / 4 entries. Outside: incomplete configs, booleans, "
+         "non-str IP values, YAML text parsing.")
+
 PENDING_REASON = "check not built yet in this session (planned in DESIGN.md section 6); no claim is made"
 NOT_APPLICABLE = {}
 
